@@ -7,8 +7,13 @@ import itertools, random
 GROUPS = ["bypass", "pre", "cont", "post", "deferred"]
 
 
-def blk(seqs, conc=1, tol=0, g=None):
-    return {"g": g or {}, "seqs": list(seqs), "conc": conc, "tol": tol}
+def blk(seqs, conc=1, tol=0, g=None, ed=0, xd=0):
+    b = {"g": g or {}, "seqs": list(seqs), "conc": conc, "tol": tol}
+    if ed:
+        b["ed"] = ed      # EntranceDelay, microseconds
+    if xd:
+        b["xd"] = xd      # ExitDelay
+    return b
 
 
 def shape(blocks, pg=None, retries=0, cretries=0):
@@ -64,7 +69,8 @@ def fam_order(rnd, n):
         blocks = []
         for _ in range(nb):
             ns = rnd.choice([1, 2, 3])
-            blocks.append(blk([rnd.choice([1, 2, 3]) for _ in range(ns)], conc=rnd.choice([1, 2, 3]), tol=rnd.choice([0, 0, 1, -1])))
+            blocks.append(blk([rnd.choice([1, 2, 3]) for _ in range(ns)], conc=rnd.choice([1, 2, 3]), tol=rnd.choice([0, 0, 1, -1]),
+                              ed=rnd.choice([0, 0, 0, 300]), xd=rnd.choice([0, 0, 0, 300])))      # a quarter of the blocks with entrance / exit delays
         sh = shape(blocks, retries=rnd.choice([0, 1, 2]))
         mode = "quiet" if i % 3 == 0 else "free"
         res.append(scn(sh, mode, rand_outcomes(rnd, sh, 0.12, 0.08), tag="order", latmax=rnd.choice([50, 300, 1500]), cancelstart=(i % 7 == 3)))
